@@ -39,6 +39,9 @@ package ranges
 //@   ensures imp(result1 == nil, result.end == ite($rfS(r.Start) < 0 && r.End == "", 1, ite($rfS(r.Start) > 0 && !r.Exclude, $rfE(r.End) + 1, $rfE(r.End))))
 //@   ensures imp(result1 == nil, r.Buffer == (old(r.Buffer) || $rfS(r.Start) < 0))
 //@   ensures imp(result1 == nil, imp(r.Start != "", $atoiOk(r.Start)) && imp(r.End != "", $atoiOk(r.End)))
+//@   ghost at return: result.$seen = 0
+//@   ghost at return: result.$done = false
+//@   ensures imp(result1 == nil, result.$seen == 0 && !result.$done)
 
 // newIndex installs the matcher: the element number at which output starts is start+1 = s, and the
 // matcher's end is e (inclusive range with a start), e-1 (no start, or exclusive).
@@ -49,6 +52,13 @@ package ranges
 //@   ensures imp(result == nil, unbox(r.Match, *rfIndex).i == 0 && unbox(r.Match, *rfIndex).start == $rfS(r.Start) - 1)
 //@   ensures imp(result == nil, unbox(r.Match, *rfIndex).end == ite($rfS(r.Start) < 0 && r.End == "", 0, ite($rfS(r.Start) > 0 && !r.Exclude, $rfE(r.End), $rfE(r.End) - 1)))
 //@   ensures imp(result == nil, r.Buffer == (old(r.Buffer) || $rfS(r.Start) < 0))
+//@   ensures imp(result == nil, unbox(r.Match, *rfIndex).$seen == 0 && !unbox(r.Match, *rfIndex).$done)
+// ... in the terms of the property: output starts at element s, the end is hit at element e, and for
+// [-k..] the start element is (length - k) + 1 once SetLength(length) has run.
+//@   ensures imp(result == nil && r.Start != "" && $atoi(r.Start) >= 1, unbox(r.Match, *rfIndex).start + 1 == $atoi(r.Start))
+//@   ensures imp(result == nil && r.End != "" && (r.Start == "" || $atoi(r.Start) >= 1), ite(r.Start != "" && !r.Exclude, unbox(r.Match, *rfIndex).end, unbox(r.Match, *rfIndex).end + 1) == $atoi(r.End))
+//@   ensures imp(result == nil && r.Start != "" && $atoi(r.Start) < 0, r.Buffer && unbox(r.Match, *rfIndex).start + 1 == $atoi(r.Start))
+//@   ensures imp(result == nil && r.Start == "", unbox(r.Match, *rfIndex).start + 1 <= 0)
 
 // ---- the per-element step of readArray ---------------------------------------------------------------------
 // For element number n (= $seen+1) of an index range whose matcher has start S and end E:
@@ -78,3 +88,23 @@ package ranges
 //@   ensures imp(!(r.StripBlank && len(b) == 0), started == (old(started) || old(unbox(r.Match, *rfIndex).$seen) + 1 >= unbox(r.Match, *rfIndex).start + 1))
 //@   ensures called("dynamic:write") == (!(r.StripBlank && len(b) == 0) && $rfPass(old(started), old(unbox(r.Match, *rfIndex).$seen) + 1, unbox(r.Match, *rfIndex).start, r.Exclude) && ite($rfEndHit(r.Start != "", r.End != "", r.Exclude, unbox(r.Match, *rfIndex).end, old(unbox(r.Match, *rfIndex).$seen) + 1), !r.Exclude, !p.IsNot))
 //@   ensures called("dynamic") == unbox(r.Match, *rfIndex).$done
+
+// readArray: the matcher starts at i = 0 with nothing seen; for a buffered (negative) start the bounds are
+// shifted by the number of elements + 1; the filter has started iff no start was given; then the step
+// invariant of the callback holds when the stream is handed to ReadArray.
+//@ func buffer [C17] trusted
+//@   modifies nothing
+//@   ensures result1 >= 0
+
+//@ func readArray [C17]
+//@   check none
+//@   dispatch (builtins/core/ranges.rangeFuncs) *rfIndex
+//@   requires p != nil && r != nil && typeis(r.Match, *rfIndex) && unbox(r.Match, *rfIndex) != nil
+//@   requires unbox(r.Match, *rfIndex).i == 0 && unbox(r.Match, *rfIndex).$seen == 0 && !unbox(r.Match, *rfIndex).$done
+//@   at call (lang/stdio.Io).ReadArray#1 assert started == (r.Start == "")
+//@   at call (lang/stdio.Io).ReadArray#1 assert typeis(r.Match, *rfIndex) && r.Match == old(r.Match)
+//@   at call (lang/stdio.Io).ReadArray#1 assert unbox(r.Match, *rfIndex).i == 0
+//@   at call (lang/stdio.Io).ReadArray#1 assert unbox(r.Match, *rfIndex).$seen == 0 && !unbox(r.Match, *rfIndex).$done
+//@   at call (lang/stdio.Io).ReadArray#1 assert unbox(r.Match, *rfIndex).start == old(unbox(r.Match, *rfIndex).start) + ite(r.Buffer, length + 1, 0)
+//@   at call (lang/stdio.Io).ReadArray#1 assert unbox(r.Match, *rfIndex).end == old(unbox(r.Match, *rfIndex).end) + ite(r.Buffer, length + 1, 0)
+//@   at call (lang/stdio.Io).ReadArray#1 assert imp(r.Buffer, arg0 == p.Context) && imp(!r.Buffer, recv == old(p.Stdin) && arg0 == p.Context)
